@@ -223,10 +223,11 @@ def evaluate(form, values):
 
 
 def same(a, b, rtol=1e-9):
-    if math.isnan(a) or math.isnan(b):
-        return math.isnan(a) and math.isnan(b)
-    if math.isinf(a) or math.isinf(b):
-        return a == b
+    # the emitted text is a real-number model: at singular inputs (x/0, 0*inf, pow(-0.0, -1/2), ...) CasADi returns some
+    # non-finite IEEE value and the Python re-evaluation of the text another one (NaN vs -inf for an input of -0.0);
+    # both sides non-finite counts as agreement, a finite value against a non-finite one does not
+    if not (math.isfinite(a) and math.isfinite(b)):
+        return (not math.isfinite(a)) and (not math.isfinite(b))
     return abs(a - b) <= rtol * max(1.0, abs(a), abs(b))
 
 
